@@ -105,6 +105,7 @@ def values_doc(ctx, attr_idx, vk, ns_mode, in_bundle, strlen=2, text_kind="any")
 
     d = ProvDocument()
     d.add_namespace("ex", EX)
+    d.add_namespace("bid", "http://bid/")  # bundle identifiers live under a prefix no bundle re-declares
     mode = NS_MODES[ns_mode]
     uris = []
     if mode in ("doc_default", "bundle_default"):
@@ -116,7 +117,7 @@ def values_doc(ctx, attr_idx, vk, ns_mode, in_bundle, strlen=2, text_kind="any")
         d.add_namespace("ex", uris[-1])
     target = d
     if in_bundle:
-        target = d.bundle("ex:bundle1")
+        target = d.bundle("bid:bundle1")
         if mode == "bundle_default":
             uris.append(ctx.str("bdu", 3, 2, "uri"))
             target.set_default_namespace(uris[-1])
